@@ -459,12 +459,15 @@ package process
 // printers used in diagnostics and logging
 //@ contract interface Form.String(self)
 //@   requires[C09] formOK(self)
-//@   decreases[C09] fsize(self)
+//@   decreases[C09] fsize(self), 0
 //@ contract interface Form.StringShort(self)
 //@   requires[C09] formOK(self)
 //@   decreases[C09] fsize(self)
+// termination of the term printers: a case hands its branches to StringifyBranches, whose measure is the largest branch
+//@ spec branchesMax(bs []*BranchForm) int where (forall k int :: 0 <= k && k < len(bs) ==> fsize(Form(bs[k])) <= result) && (len(bs) >= 1 ==> (exists k int :: 0 <= k && k < len(bs) && result == fsize(Form(bs[k]))))
 //@ contract StringifyBranches
-//@   inline
+//@   requires[C09] forall k int :: 0 <= k && k < len(branches) ==> branches[k] != nil && formOK(Form(branches[k]))
+//@   decreases[C09] branchesMax(branches), 1
 //@ contract StringifyBranchesShort
 //@   inline
 //@ contract stringifyContext
@@ -872,3 +875,47 @@ package process
 //@ atomicinit NewRuntimeEnvironment InitializeProcesses
 //@ moves (*Process).SpawnThenTransition (*Process).SpawnThenTransitionNP
 //@ owned Process
+
+// ---------------------------------------------------------------------------------------------
+// C15 for terms: String() of every term former equals the canonical printer ppf, written out from the concrete syntax
+// of the README / parser.y (names are printed by (*Name).String, whose text nameStr is taken as given: for a term
+// written in terms of `self` it is the identifier, or `self`). That the generated parser maps ppf(t) back to t is an
+// argument about the grammar, not mechanised.
+//@ spec nameStr(n Name) string
+//@ contract (*Name).String
+//@   defines nameStr(deref(n))
+//@   ensures C15.nameFrame: buffersKept()
+//@ contract (*Label).String
+//@   ensures C15.label: result == p.L
+//@   pure
+//@ spec namesStr(ns []Name, n int) string = ite(n <= 0, "", ite(n == 1, nameStr(ns[0]), namesStr(ns, n - 1) + ", " + nameStr(ns[n-1])))
+//@ contract NamesToString
+//@   ensures C15.names: result == namesStr(names, len(names))
+//@   ensures C15.namesFrame: buffersKept()
+//@   loop 1 invariant bufstr[addrof(buf)] == namesStr(names, idx + 1) + ite(0 <= idx && idx < len(names) - 1, ", ", "")
+//@   loop 1 invariant buffersKept()
+//@ spec ppBranches(bs []*BranchForm, n int) string = ite(n <= 0, "", ite(n == 1, ppf(Form(bs[0])), ppBranches(bs, n - 1) + " | " + ppf(Form(bs[n-1]))))
+//@ spec ppf(f Form) string =
+//@    ite(is(f, SendForm), "send " + nameStr(SendForm(f).to_c) + "<" + nameStr(SendForm(f).payload_c) + "," + nameStr(SendForm(f).continuation_c) + ">",
+//@    ite(is(f, ReceiveForm), "<" + nameStr(ReceiveForm(f).payload_c) + "," + nameStr(ReceiveForm(f).continuation_c) + "> <- recv " + nameStr(ReceiveForm(f).from_c) + "; " + ppf(ReceiveForm(f).continuation_e),
+//@    ite(is(f, SelectForm), nameStr(SelectForm(f).to_c) + "." + SelectForm(f).label.L + "<" + nameStr(SelectForm(f).continuation_c) + ">",
+//@    ite(is(f, BranchForm), BranchForm(f).label.L + "<" + nameStr(BranchForm(f).payload_c) + "> => " + ppf(BranchForm(f).continuation_e),
+//@    ite(is(f, CaseForm), "case " + nameStr(CaseForm(f).from_c) + " (" + ppBranches(CaseForm(f).branches, len(CaseForm(f).branches)) + ")",
+//@    ite(is(f, NewForm), nameStr(NewForm(f).new_name_c) + " <- new (" + ppf(NewForm(f).body) + "); " + ppf(NewForm(f).continuation_e),
+//@    ite(is(f, CloseForm), "close " + nameStr(CloseForm(f).from_c),
+//@    ite(is(f, ForwardForm), "fwd " + nameStr(ForwardForm(f).to_c) + " " + nameStr(ForwardForm(f).from_c),
+//@    ite(is(f, SplitForm), "<" + nameStr(SplitForm(f).channel_one) + "," + nameStr(SplitForm(f).channel_two) + "> <- split " + nameStr(SplitForm(f).from_c) + "; " + ppf(SplitForm(f).continuation_e),
+//@    ite(is(f, CallForm), CallForm(f).functionName + "(" + namesStr(CallForm(f).parameters, len(CallForm(f).parameters)) + ")",
+//@    ite(is(f, WaitForm), "wait " + nameStr(WaitForm(f).to_c) + "; " + ppf(WaitForm(f).continuation_e),
+//@    ite(is(f, CastForm), "cast " + nameStr(CastForm(f).to_c) + "<" + nameStr(CastForm(f).continuation_c) + ">",
+//@    ite(is(f, ShiftForm), nameStr(ShiftForm(f).continuation_c) + " <- shift " + nameStr(ShiftForm(f).from_c) + "; " + ppf(ShiftForm(f).continuation_e),
+//@    ite(is(f, DropForm), "drop " + nameStr(DropForm(f).client_c) + "; " + ppf(DropForm(f).continuation_e),
+//@        "print " + PrintForm(f).label.L + "; " + ppf(PrintForm(f).continuation_e)))))))))))))))
+//@ contract interface Form.String(self)
+//@   ensures C15.printTerm: result == ppf(self)
+//@   ensures C15.printTermFrame: buffersKept()
+//@ contract StringifyBranches
+//@   ensures C15.termBranches: result == ppBranches(branches, len(branches))
+//@   ensures C15.termBranchesFrame: buffersKept()
+//@   loop 1 invariant bufstr[addrof(buf)] == ppBranches(branches, idx + 1) + ite(0 <= idx && idx < len(branches) - 1, " | ", "")
+//@   loop 1 invariant buffersKept()
